@@ -13,6 +13,12 @@ VARIABLE S
 Init == S \in AllSeqs
 Next == UNCHANGED S
 
+(* Replication law used by the replay with compact dtypes: the answer for the  *)
+(* sequence stored k times over is the answer for S shifted by every multiple *)
+(* of Len(S) -- checked here for k = 3 on every generated sequence and query. *)
+Shifted(H, n, k) == {i + j * n : i \in H, j \in 0..(k-1)}
+ReplicationLaw == \A qq \in Queries : Hits(S \o S \o S, qq) = Shifted(Hits(S, qq), Len(S), 3)
+
 Emit == PrintT(<<"CASE", ToJson([
             S |-> S,
             iq |-> [qq \in Queries |-> Hits(S, qq)],
